@@ -250,7 +250,7 @@ class C11(runner.Check):
         for s, (q, t) in BUDGET.items():
             nch, per = q if tier == 'quick' else t
             payloads += [(s, seed, i, per) for i in range(nch)]
-        ex = Exploration()
+        ex = self.corpus()
         for part in runner.parallel(chunk, payloads):
             ex.merge(part)
         known = set(k.get('signature') for k in self.known())
@@ -261,6 +261,23 @@ class C11(runner.Check):
                 ex.failures.remove(first)
                 ex.failures.insert(0, first)
                 self.shrink_failure(first)
+        return ex
+
+    def corpus(self):
+        """the minimised witnesses under corpus/C11 run first on every run"""
+        import glob
+        import os
+        ex = Exploration()
+        for path in sorted(glob.glob(os.path.join(common.CORPUS, 'C11', '*.json'))):
+            with open(path) as fh:
+                payload = json.load(fh)
+            fails, facts = rejudge(payload)
+            ex.evaluations += 1
+            ex.traces_validated += facts.get('steps', 0)
+            bump(ex.stats.setdefault('cases_per_stream', {}), 'corpus')
+            for kind, what, details, sig in fails:
+                bump(ex.stats.setdefault('failures', {}), '%s:%s' % (kind, sig or what))
+                ex.failures.append(Failure(kind, what, payload, dict(details, corpus=os.path.basename(path)), signature=sig))
         return ex
 
     def shrink_failure(self, f):
@@ -289,7 +306,7 @@ class C11(runner.Check):
         if 'case' not in payload:
             print('no concrete input in this replay file: broken obligation', payload.get('broken_obligation'))
             return 1
-        p = payload['case']
+        p = payload if 'stream' in payload else payload['case']      # a corpus witness or a replay file
         case = p['case']
         print('stream:', p['stream'])
         print('machine:', json.dumps({k: v for k, v in case.items() if k not in ('ops',)}, sort_keys=True))
